@@ -21,6 +21,18 @@ claimed = {
    text="Proved on the model of topsort.rs: toposort_impl terminates without index panic on every in-range graph (fuel sufficiency, pigeonhole on the DFS stack), its result is a permutation of the nodes for all graphs incl. cycles, and sort_by_indices only permutes. Partial: the topological-order theorem for acyclic graphs and the exact gather semantics of sort_by_indices are not proved yet (checked only by the exhaustive correspondence oracle); dependency extraction (get_dependencies) is not modelled yet.",
    note=TB + "toposort_impl / sort_by_indices reached through verif-hooks wrappers; exhaustive over digraphs with <=3 (quick) / <=4 (thorough) nodes and permutations of <=5/6 elements.",
    tech="Lean 4 proof (functional induction, invariants) + exhaustive small-scope correspondence"),
+ "C08": dict(ref="8/C08",
+   text="Theorems on the parser model: the recursive type parser rejects a 64-bit integer or non-empty tuple at any nesting depth (induction over the type tree, incl. references, arrays, slices, generic arguments), lifted through struct fields, newtypes, variant payloads, struct-variant fields, aliases, consts and serialized_as strings for every non-skipped position; flatten, several unnamed fields, missing/extra tag+content and non-literal consts are rejected; a skipped member is never looked at; a rejected item becomes exactly one error entry. Tied to the code by planting one unsupported construct at a random position of generated valid programs (with and without skip) through parser::parse, and by the real CLI (non-zero exit, file named, pre-existing output byte- and mtime-identical). Two former violations (flatten on variant fields, const = first literal in the expression) were repaired by fix: commits and are kept as kernel-checked regressions.",
+   note=TB + "syn is inside the compared path on the implementation side (source text is rendered from the abstract AST); serialized_as parsing by syn is an external parameter with a per-case table. The 'no output written' clause rests on the CLI runs (the writer model is C17's).",
+   tech="Lean 4 proof (mutual structural induction, Outcome monad lemmas) + planted-construct correspondence + CLI runs"),
+ "C03": dict(ref="8/C03",
+   text="Theorems on the visitor/parser model: (i) in single-file mode visiting a file equals folding collect_result over its annotated, target-os-accepted items in pre-order (modules and fn bodies included); the number of parsed items plus error entries grows by exactly the number of annotated items (none dropped, none invented, an ungeneratable item is an error entry); (ii) the fields of a parsed struct, the variants of a parsed enum and the fields of a struct variant are exactly the non-skipped source members in source order, with isSkipped characterised as 'bare skip path inside serde(..)/typeshare(..) in any position, or rejected by --target-os'. Tied by L1 correspondence on files mixing annotated/un-annotated items at depth with skip markers in all spellings, an independent python oracle on the implementation's ParsedData, and CLI runs per language. Partial: the emission clause per back end currently rests on the byte-exact back-end correspondence (TypeScript modelled; others in progress).",
+   note=TB + "One open known finding: the `#[typeshare` substring pre-filter skips files whose annotations are spelled `# [typeshare]`.",
+   tech="Lean 4 proof (mutual induction over the item tree, mapM lemmas) + L1 differential correspondence with an independent oracle"),
+ "C07": dict(ref="8/C07",
+   text="Partial. Proved: every model function is total; parser::parse (type parser, attribute readers, rename_all, target-os stack walk with fuel sufficiency, use-tree walk, item parsers, visitor) never returns a panic outcome, in single- and multi-file mode; toposort terminates without index panics. Six former parser panic sites were repaired by fix: commits and are kept as kernel-checked regressions. Tied by an edge-construct stream through parser::parse, through in-process generation for all six back ends and through the real binary (exit status in {0,1}, no `panicked at`, 30 s time-out, unparsable / non-UTF-8 files). Not carried by the model: hang-vs-abort of the ignore/crossbeam thread pool after a worker panic (observed only); back-end panic freedom (4 open known findings: Kotlin/Swift const todo!(), Scala empty package, Go non-ASCII enum name).",
+   note=TB + "Runtime behaviour of threads is outside the model; see DESIGN.md section 11.",
+   tech="Lean 4 proof (compositional no-panic lemmas over the Outcome monad, fuel sufficiency) + edge-stream correspondence + process-level runs"),
 }
 checks = []
 for pid, c in claimed.items():
@@ -34,7 +46,7 @@ na = [dict(property_id=p["id"], reason="not yet claimed: the model and proofs fo
 m = dict(version=1, setup_cmd="./setup.sh",
          hooks=dict(guard="cargo feature verif-hooks (typeshare-core, typeshare-cli)",
                     enable="runner depends on typeshare-core with features=[verif-hooks]; CLI built with --features go,python,verif-hooks",
-                    baseline_off_cmd="cd /repo && cargo test --workspace --no-fail-fast --offline",
+                    baseline_off_cmd="cd /repo && cargo nextest run --workspace --no-fail-fast --offline",
                     source_commits=["d4afac6"], add_only=True),
          engines=[dict(name="lean-proof+correspondence", path="lean/ tools/ harness/runner/ check",
                        serves_properties=list(claimed),
